@@ -1,4 +1,4 @@
-\* repaired model, empty database, 14 operations over 5 block numbers x 3 versions x {ok,fail,crash}; exhaustive: 582 451 distinct states (4 801 755 generated), 78 s on 8 workers
+\* repaired model, empty database, 14 operations over 5 block numbers x 3 versions x every durable mutation (initialisation included) x {ok,fail,crash}; exhaustive: 582 451 distinct states (5 125 711 generated), 107 s on 4 workers
 CONSTANTS
   MaxH = 4
   MaxVer = 3
